@@ -23,8 +23,8 @@ def finding_key(req, obs, detail):
     m = re.search(r"bindings differ (\w+) vs (\w+): only \w+: \[\(\"([A-Za-z_0-9]+)\", \"(\w+)\"", detail or "")
     if f[0] == "C18.cross" and m:
         # the HLSL name map renames a global whose name is reserved in HLSL and reports the new name
-        renamed = re.match(r"(matrix|vector|double)_0$", m.group(3))
-        if renamed:
+        renamed = re.match(r"([A-Za-z_][A-Za-z_0-9]*)_0$", m.group(3))
+        if renamed and f"reserved-{renamed.group(1)}" in f[2]:
             return f"binding name {renamed.group(1)} reported as {m.group(3)} by the HLSL targets"
     return req
 
@@ -88,7 +88,7 @@ SPEC = {
     "shrink": shrink,
     "search": search,
     "rule": "generated shader files (progen: up to 7 resources of 18 kinds incl. arrays, static samplers, bindless, bind groups; "
-            "helper call graphs; 1-4 pipelines compute / vertex+pixel / mesh+pixel / task+mesh) in 40 variants (accepted: plain, "
+            "helper call graphs; 1-4 pipelines compute / vertex+pixel / mesh+pixel / task+mesh) in 42 variants (accepted: plain, "
             "explicit pipeline state, include guards, object-like macros, #if __HLSL_VERSION, dead garbage in #if 0, unbounded "
             "array, resources named like HLSL/MSL reserved words, declarations in an included file, API-level defines, a struct "
             "whose layouts differ between HLSL and Metal; rejected: 20 injected lexer / preprocessor / parser / type / "
